@@ -18,6 +18,7 @@ import (
 	"github.com/elnosh/gonuts/cashu"
 	"github.com/elnosh/gonuts/cashu/nuts/nut04"
 	"github.com/elnosh/gonuts/cashu/nuts/nut05"
+	"github.com/elnosh/gonuts/mint/storage"
 
 	"verif/harness/lnmodel"
 	"verif/harness/ref"
@@ -80,10 +81,16 @@ func c04Cases(quick bool) []c04Case {
 	muts = append(muts, "htlc-genuine", "htlc-forged-C=G", "htlc-forged-C=other", "p2pk-genuine", "p2pk-forged-C=G")
 	for _, ks := range []int{0, 1} {
 		for _, d := range denoms {
-			for _, via := range []string{"swap", "melt", "swap-second", "swap-after-htlc"} {
+			for _, via := range []string{"swap", "melt", "swap-second", "swap-after-htlc", "swap-after-verified", "swap-after-failed-melt"} {
 				for _, m := range muts {
 					if m == fmt.Sprintf("amount=2^%d", log2(d)) {
 						continue
+					}
+					if via == "swap-after-verified" && !strings.HasPrefix(m, "amount=") && !strings.HasPrefix(m, "id=") && m != "unchanged" && m != "C=same-secret-other-amount" && m != "C=uncompressed" {
+						continue // the genuine proof went through verification in an earlier, refused request: what verification depends on besides (secret, C)
+					}
+					if via == "swap-after-failed-melt" && m != "unchanged" && m != "amount=2^5" && m != "amount=2^0" && m != "id=other" && m != "amount=3" {
+						continue // the same after a melt whose payment failed and released the genuine proof
 					}
 					if via == "swap-second" && strings.HasPrefix(m, "C=flip") && m != "C=flip0" && m != "C=flip7" && m != "C=flip8" && m != "C=flip263" {
 						continue // position does not multiply the bit-flip family; amount / id / encoding / secret mutations all run in second position
@@ -108,6 +115,9 @@ func c04Cases(quick bool) []c04Case {
 	// secret length boundary (validly signed)
 	for _, via := range []string{"swap", "melt"} {
 		cs = append(cs, c04Case{1, 2, via, "secretlen=512"}, c04Case{1, 2, via, "secretlen=513"})
+		// the limit is in bytes: multi-byte characters (2-, 3- and 4-byte UTF-8)
+		cs = append(cs, c04Case{1, 2, via, "secret=256x2byte"}, c04Case{1, 2, via, "secret=257x2byte"}, c04Case{1, 2, via, "secret=300x3byte"},
+			c04Case{1, 2, via, "secret=171x3byte"}, c04Case{1, 2, via, "secret=170x3byte"}, c04Case{1, 2, via, "secret=129x4byte"}, c04Case{1, 2, via, "secret=128x4byte"})
 	}
 	return cs
 }
@@ -442,6 +452,19 @@ func c04Worker(job json.RawMessage) (any, error) {
 				return c04Res{Err: "mint long secret: " + err.Error()}, nil
 			}
 			p = sp.p
+		case strings.HasPrefix(c.mut, "secret=") && strings.HasSuffix(c.mut, "byte"):
+			var n, width int
+			fmt.Sscanf(c.mut, "secret=%dx%dbyte", &n, &width)
+			ch := map[int]string{2: "é", 3: "€", 4: "𝔘"}[width]
+			sec := strings.Repeat(ch, n)
+			if c.via == "melt" { // a different secret of the same byte length for the second use
+				sec = strings.Repeat(ch, n-1) + map[int]string{2: "ü", 3: "₭", 4: "𝔙"}[width]
+			}
+			sp, err := w.mintOne(c.denom, sec)
+			if err != nil {
+				return c04Res{Err: "mint multi-byte secret: " + err.Error()}, nil
+			}
+			p = sp.p
 		default:
 			return c04Res{Err: "unknown mutation " + c.mut}, nil
 		}
@@ -469,6 +492,46 @@ func c04Worker(job json.RawMessage) (any, error) {
 			if opErr == nil {
 				delete(base, fmt.Sprintf("%d/%d", c.ks+10, c.denom))
 			}
+		case "swap-after-verified", "swap-after-failed-melt":
+			// the genuine proof first passes verification in a request that does not consume it
+			var preErr error
+			if c.via == "swap-after-verified" {
+				signed, err := w.mintOne(b.p.Amount, "") // its output is signed already: a swap asking for it again is refused after the inputs were verified
+				if err != nil {
+					return c04Res{Err: err.Error()}, nil
+				}
+				outs := []world.Out{signed.out}
+				_, preErr = c04Guard(func() error { _, e := w.m.M.Swap(cashu.Proofs{b.p}, world.Msgs(outs)); return e })
+			} else {
+				comp, err := w.mintOne(2, "")
+				if err != nil {
+					return c04Res{Err: err.Error()}, nil
+				}
+				inv := ln.NewExternalInvoice(1)
+				mq, err := m.MeltQuote(inv.Request)
+				if err != nil {
+					return c04Res{Err: "melt quote: " + err.Error()}, nil
+				}
+				ln.PayScript[inv.Hash] = []lnmodel.Answer{lnmodel.Failed}
+				ln.StatusScript[inv.Hash] = []lnmodel.Answer{lnmodel.Failed}
+				var mres storage.MeltQuote
+				_, preErr = c04Guard(func() error {
+					var e error
+					mres, e = w.m.M.MeltTokens(context.Background(), nut05.PostMeltBolt11Request{Quote: mq.Id, Inputs: cashu.Proofs{b.p, comp.p}})
+					return e
+				})
+				if preErr == nil && mres.State == nut05.Unpaid {
+					preErr = fmt.Errorf("unpaid")
+				}
+			}
+			if preErr == nil {
+				return c04Res{Err: fmt.Sprintf("case %d (%s/%s): the preparing request was expected to be refused and was accepted", i, c.via, c.mut)}, nil
+			}
+			outs := w.u.Outputs(w.ids[1], world.Split(nonzero(p.Amount))...)
+			if p.Amount == 0 || p.Amount >= 1<<60 || p.Amount&(p.Amount-1) != 0 {
+				outs = w.u.Outputs(w.ids[1], 1)
+			}
+			_, opErr = c04Guard(func() error { _, e := w.m.M.Swap(cashu.Proofs{p}, world.Msgs(outs)); return e })
 		case "swap-after-htlc":
 			pre := sha256.Sum256([]byte(fmt.Sprintf("c04 first preimage %d", i)))
 			h := sha256.Sum256(pre[:])
